@@ -113,20 +113,30 @@ def note_returned(value):
 # warnings seam
 # --------------------------------------------------------------------------------------
 class WarningRecorder(object):
+    """Replaces warnings.showwarning; records (category, message, thread name).  No
+    catch_warnings inside threads: it is not thread-safe and would make the harness, not
+    mir_eval, nondeterministic."""
+
     def __init__(self):
         self.items = []
-        self.actor = None
 
     def install(self):
         warnings.resetwarnings()
         warnings.simplefilter("always")
         warnings.showwarning = self._show
+        self.items = []
 
     def _show(self, message, category, filename, lineno, file=None, line=None):
-        self.items.append((category.__name__, str(message), self.actor))
+        self.items.append((category.__name__, str(message), threading.current_thread().name))
 
     def take(self):
         out, self.items = self.items, []
+        return out
+
+    def take_for(self, actor):
+        name = "actor-" + actor
+        out = [it for it in self.items if it[2] == name]
+        self.items = [it for it in self.items if it[2] != name]
         return out
 
 
